@@ -186,6 +186,7 @@ theorem code_matches_model :
       "u.clientsMu.Lock()",
       "defer u.clientsMu.Unlock()",
       "select { case <-u.quit: conn.Close() return nil, errors.New(upstreamExited) default: }",
+      "verifPause(\"upstream.client.checked\", u)",
       "if existing, ok := u.loadClients()[addr]; ok { conn.Close() return existing, nil }",
       "go func() { c.Start() u.removeEndedClient(addr, c) }()",
       "u.addClientLocked(addr, c)",
